@@ -500,6 +500,51 @@ def bump(v: int, x):
     return x
 
 
+def naming_facts(scope, node, inline_cls) -> dict:
+    """Where every visible name of a build scope comes from (the hypotheses `NameFacts` of
+    build_scope_prefixFree), read off the real Scope just before `_Inline.to_onnx(node)`."""
+    try:
+        k = scope.node[node]
+        users, bases, viol = [], [], []
+        inlines = [n for o, n in scope.node.name_of.items() if isinstance(o, inline_cls) and o is not node]
+        for var, name in scope.var.name_of.items():
+            if getattr(var, "_name", None) is not None:
+                users.append(name)
+                continue
+            op_ = var._op
+            if op_ not in scope.node.name_of:
+                users.append(name)  # `Scope.of(...)` of adapt_inline: every name is given, none generated
+                continue
+            field = next((f for f, v in op_.outputs.get_vars().items() if v is var), None)
+            base = f"{scope.node[op_]}_{field}"
+            if name == base or name.startswith(base + "_"):
+                bases.append(base)
+            else:
+                viol.append(f"value name {name} is neither preset nor {base}[_c]")
+        def from_inline(n):
+            return any(n.startswith(q + "__") for q in inlines)
+        for n in scope.var.reserved:
+            if not from_inline(n):
+                viol.append(f"reserved value name {n} does not come from another Inline node")
+        for b in scope.var.base_name_counters:
+            if b not in bases and not from_inline(b):
+                viol.append(f"value counter key {b} belongs to no visible generated name")
+        node_names = list(scope.node.name_of.values())
+        for b in scope.node.base_name_counters:
+            if not from_inline(b):
+                node_names.append(b)
+        for n in scope.node.reserved:
+            if not from_inline(n):
+                viol.append(f"reserved node name {n} does not come from another Inline node")
+        d = {"k": k, "users": sorted(set(users)), "varBases": sorted(set(bases)), "inlines": sorted(set(inlines)),
+             "nodeNames": sorted(set(node_names))}
+        if viol:
+            d["violations"] = viol[:5]
+        return d
+    except Exception as e:  # noqa: BLE001
+        return {"unobservable": f"{type(e).__name__}: {e}"}
+
+
 def chainable(m: onnx.ModelProto, float_ins, float_outs) -> bool:
     """Feeding the first float output back into the float inputs is a legal call."""
     if not float_outs or not float_ins:
@@ -796,6 +841,63 @@ def oracle_build_only(m: onnx.ModelProto, seed: int) -> list[tuple[str, str]]:
     want, got = count_ops(m.graph, {}), count_ops(outer.graph, {})
     if want != got:
         fails.append(("custom-nodes-lost", f"build-only: custom nodes of m {want}, in the built model {got}"))
+    return fails
+
+
+HOSTILE_HIST: dict[str, int] = {}
+
+
+def oracle_hostile_names(m: onnx.ModelProto, seed: int, variants=None) -> list[tuple[str, str]]:
+    """The complement of build_scope_prefixFree's condition: user-chosen argument / result names inside
+    the `Inline_0__` family (or equal to a generated name). The build must raise or be correct - never
+    a wrong or invalid model. Model-free."""
+    from spox import argument, build, inline
+
+    rng = random.Random(seed)
+    fails = []
+    m_ref = fresh(m.SerializeToString(deterministic=True))
+    ins = [i.name for i in m.graph.input]
+    outs = [o.name for o in m.graph.output]
+    inner = sorted({n for nd in m.graph.node for n in list(nd.output) + [nd.name]} | {i.name for i in m.graph.initializer}
+                   - set(ins) - set(outs) - {""}) or ["x"]
+    vals = input_values(rng, m)
+    try:
+        d = dict(zip(outs, ort_run(m_ref, vals)))
+    except Exception as e:  # noqa: BLE001
+        raise Infra(f"onnxruntime cannot run m itself: {e}") from e
+    for variant in (variants or [rng.choice(["arg-clash", "res-clash", "arg-family", "res-generated", "both"])]):
+        t = rng.choice(inner)
+        arg_keys = [f"arg_{j}" for j in range(len(ins))]
+        res_keys = [f"res_{k}" for k in range(len(outs))]
+        if variant in ("arg-clash", "both"):
+            arg_keys[rng.randrange(len(ins))] = f"Inline_0__{t}"
+        if variant == "arg-family":
+            arg_keys[rng.randrange(len(ins))] = "Inline_0__no_such_inner_name"
+        if variant in ("res-clash", "both"):
+            res_keys[rng.randrange(len(outs))] = f"Inline_0__{rng.choice(inner)}"
+        if variant == "res-generated":
+            res_keys[rng.randrange(len(outs))] = f"Inline_0_outputs_{rng.randrange(len(outs))}"
+        try:
+            with warnings.catch_warnings():
+                warnings.simplefilter("ignore")
+                A = [argument(spox_type(concrete(L.type_json(i.type)))) for i in m.graph.input]
+                r = inline(m)(*A)
+                built = build(dict(zip(arg_keys, A)), {rk: r[o] for rk, o in zip(res_keys, outs)})
+        except Exception as e:  # noqa: BLE001 - refusing is fine
+            key = f"{variant}:raised:{type(e).__name__}"
+            HOSTILE_HIST[key] = HOSTILE_HIST.get(key, 0) + 1
+            continue
+        try:
+            got = dict(zip([o.name for o in built.graph.output], ort_run(built, dict(zip(arg_keys, [vals[n] for n in ins])))))
+        except Exception as e:  # noqa: BLE001
+            fails.append(("invalid-model-under-hostile-names", f"{variant}: build accepted names {arg_keys} -> {res_keys} but onnxruntime refuses the model: {str(e)[:200]}"))
+            continue
+        bad = [rk for rk, o in zip(res_keys, outs) if not same(got[rk], d[o])]
+        if bad:
+            fails.append(("wrong-model-under-hostile-names", f"{variant}: names {arg_keys} -> {res_keys}: output {bad[0]} = {np.asarray(got[bad[0]]).tolist()} but m computes {np.asarray(d[outs[res_keys.index(bad[0])]]).tolist()}"))
+        else:
+            key = f"{variant}:built-correctly"
+            HOSTILE_HIST[key] = HOSTILE_HIST.get(key, 0) + 1
     return fails
 
 
@@ -1157,6 +1259,8 @@ def run(ck: core.Check):
     # ---- model-free oracle (while it runs, observe the scopes the build hands to _Inline.to_onnx:
     #      rename_total's hypothesis "nothing visible or counted starts with <node>__")
     scope_obs = {"to_onnx_calls": 0, "prefix_free": 0}
+    name_cases: list = []
+    name_cap = ck.pick(4000, 12000)
     restore_hook = None
     try:
         import spox._inline as _I
@@ -1174,7 +1278,10 @@ def run(ck: core.Check):
                         names |= set(q.base_name_counters)
                         q = q.parent
                 scope_obs["to_onnx_calls"] += 1
-                scope_obs["prefix_free"] += int(not any(n.startswith(pre) for n in names))
+                free = not any(n.startswith(pre) for n in names)
+                scope_obs["prefix_free"] += int(free)
+                if len(name_cases) < name_cap:
+                    name_cases.append((naming_facts(scope, self, _I._Inline), free))
             except Exception as e:  # noqa: BLE001
                 scope_obs["unobservable"] = f"{type(e).__name__}: {e}"
             return _orig_to_onnx(self, scope, *a, **k)
@@ -1190,6 +1297,25 @@ def run(ck: core.Check):
             restore_hook()
     if scope_obs.get("to_onnx_calls") and scope_obs["prefix_free"] != scope_obs["to_onnx_calls"]:
         ck.notes.append(f"{scope_obs['to_onnx_calls'] - scope_obs['prefix_free']} build scopes were not free of the node's prefix family (rename_total does not apply to them)")
+    # build_scope_prefixFree: naming facts observed, condition evaluated by the model
+    facts_bad = [c for c, _ in name_cases if c.get("violations")]
+    if facts_bad:
+        ck.broken("correspondence", "C08 naming facts (NameFacts) do not describe a build scope", json.dumps(facts_bad[0])[:600])
+    nd = [c for c, _ in name_cases if "unobservable" not in c]
+    try:
+        safe_ans = ck.driver().ask_many("C08", [{"nameData": c} for c in nd]) if nd else []
+    except Exception as e:  # noqa: BLE001
+        ck.broken("correspondence", "C08 driver (nameData)", str(e))
+        safe_ans = []
+    n_safe = 0
+    frees = [f for c, f in name_cases if "unobservable" not in c]
+    for c, f, a in zip(nd, frees, safe_ans):
+        if a.get("safe"):
+            n_safe += 1
+            if not f and not c.get("violations"):
+                ck.broken("correspondence", "C08 build_scope_prefixFree: safe names but the scope is not prefix-free", json.dumps(c)[:600])
+    scope_obs.update({"naming_cases": len(nd), "naming_safe": n_safe, "naming_facts_violated": len(facts_bad),
+                      "naming_unobservable": len(name_cases) - len(nd)})
     ck.cov["build_scopes_observed"] = scope_obs
     ck.cov.update({"models": len(models), "invalid_candidates_dropped": dropped, "feature_histogram": feature_hist})
     _finish_evidence(ck)
@@ -1213,6 +1339,12 @@ def _oracle_phase(ck, models, snaps, rng, scope_obs):
                                        "summary": L.summary(m), "features": meta["features"]})
             ck.count(("build-only", mi))
             continue
+        if "oracle-only" not in meta["features"]:
+            seed2 = rng.randrange(1 << 30)
+            hv = ["arg-clash", "res-clash", "arg-family", "res-generated", "both"] if meta["kind"] == "corner" else None
+            for key, what in oracle_hostile_names(fresh(snaps[mi]), seed2, hv):
+                ck.failure(key, what, {"kind": "hostile-names", "model": L.to_b64(fresh(snaps[mi])), "seed": seed2,
+                                       "variants": hv, "summary": L.summary(m), "features": meta["features"]})
         forms = list(FORMS) if (ck.thorough or meta["kind"] == "corner") else ["once"] + rng.sample(FORMS[1:], 3)
         for form in forms:
             if form == "chained" and "no-chain" in meta["features"]:
@@ -1226,7 +1358,7 @@ def _oracle_phase(ck, models, snaps, rng, scope_obs):
                 ck.failure(key, what, {"kind": "compose", "form": form, "model": L.to_b64(m), "seed": seed1,
                                        "summary": L.summary(m), "features": meta["features"]})
         ck.sample({"model": L.summary(m), "features": meta["features"]}, 4)
-    ck.cov.update({"oracle_compositions": n_oracle, "oracle_forms": form_hist})
+    ck.cov.update({"oracle_compositions": n_oracle, "oracle_forms": form_hist, "hostile_outer_names": dict(sorted(HOSTILE_HIST.items()))})
 
 
 def _finish_evidence(ck):
@@ -1261,6 +1393,8 @@ def replay(ck: core.Check, doc) -> bool:
         warnings.simplefilter("ignore")
         if case["kind"] == "purity":
             fs = purity(m)
+        elif case["kind"] == "hostile-names":
+            fs = oracle_hostile_names(m, case["seed"], case.get("variants"))
         elif case["kind"] == "build-only":
             fs = oracle_build_only(m, case["seed"])
         elif case["kind"] == "errors":
